@@ -1,4 +1,5 @@
 import DV.InsModel
+import DV.TokDrv
 open InsModel
 def handle (line : String) : String :=
   match (line.trimAscii.toString.splitOn " ") with
@@ -6,6 +7,8 @@ def handle (line : String) : String :=
     match n.toNat?, (ss.mapM String.toNat?) with
     | some n, some ss => InsModel.render (build n (r == "1") ss)
     | _, _ => "bad-op"
+  | ["tokens", pu, h] => " ".intercalate (TokDrv.allTokens (pu == "1") (TokDrv.unhex h.toList) [])
+  | ["tokens", pu] => " ".intercalate (TokDrv.allTokens (pu == "1") [] [])
   | _ => "bad-op"
 partial def loop (h : IO.FS.Stream) : IO Unit := do
   let line ← h.getLine
